@@ -1153,6 +1153,11 @@ func (m *Tx) Deserialize(r io.Reader) error {
 
 // Serialize writes the message to a writer.
 func (m Tx) Serialize(w io.Writer) error {
+	if len(m.Outputs) != len(m.Tx.TxIn) {
+		// The output count is not serialized. It is derived from the input count when deserialized.
+		return errors.New("spent output count doesn't match input count")
+	}
+
 	if err := wire.WriteVarInt(w, wire.ProtocolVersion, m.ID); err != nil {
 		return errors.Wrap(err, "id")
 	}
